@@ -70,6 +70,8 @@ def check(tier, seed, replay=None):
                 c["chunks"] = [rnd.choice([1, 1, 2, 3, 7, 64]) for _ in range(5)]
             else:
                 c["wfail"] = k
+                # whatever the sink reports - a reader that went away, a full device, a reset connection: it is a failed write
+                c["wkind"] = ["Other", "BrokenPipe", "WriteZero", "ConnectionReset", "TimedOut", "BrokenPipe", "PermissionDenied", "ConnectionAborted"][(k + len(cases)) % 8]
                 c["wmax"] = rnd.choice([0, 1, 3, 7])
             cases.append(c)
             descs.append({"policy": p["policy"], "mode": p["mode"], "stdin": p["stdin"], "stdin_text": data.decode("latin-1"), "faults": [[kind, k]], "plan": i,
